@@ -1,9 +1,109 @@
 import LinfaSpec.Model.Proto
+import LinfaSpec.Model.Scalar
+import LinfaSpec.Model.Vectorizer
 
 namespace LinfaSpec.Drv.C17
-open LinfaSpec.Proto
+open LinfaSpec.Proto LinfaSpec.Vectorizer
 
-/-- stub: replaced when the property's model lands -/
-def handle (_toks : List String) : String := "bad-op"
+/-- a word travels as `x` + hex of its UTF-8 bytes (so the empty word is `x`) -/
+def parseWord (s : String) : Option String :=
+  if s.startsWith "x" then
+    let h := (s.drop 1).toString
+    if h.isEmpty then some "" else hexDecode h
+  else none
+
+def showWord (w : String) : String := "x" ++ hexEncode w
+
+def argDocs (toks : List String) (key : String) : Option (List (List String)) :=
+  (arg toks key).bind (parseList2 parseWord)
+
+def argWords (toks : List String) (key : String) : Option (List String) :=
+  (arg toks key).bind (parseList parseWord)
+
+/-- `stop=none` or `stop=S:<words>` -/
+def argStop (toks : List String) : Option (Option (List String)) := do
+  let s ← arg toks "stop"
+  if s == "none" then some none
+  else if s.startsWith "S:" then (parseList parseWord (s.drop 2).toString).map some
+  else none
+
+def argCap (toks : List String) : Option (Option Nat) := do
+  let s ← arg toks "cap"
+  if s == "none" then some none else (parseNat s).map some
+
+def argMethod (toks : List String) : Option Method := do
+  let s ← arg toks "method"
+  if s == "smooth" then some .smooth
+  else if s == "nonsmooth" then some .nonSmooth
+  else if s == "textbook" then some .textbook
+  else none
+
+def argF32 (toks : List String) (key : String) : Option Float32 :=
+  (arg toks key).bind fun s => if s.length = 8 then parseF32 s else none
+
+/-- canonical enumeration of the hash map: by word (the harness sorts the
+implementation's vocabulary the same way and permutes the columns accordingly) -/
+def byWord (l : List (Entry String)) : List (Entry String) :=
+  l.mergeSort fun a b => !(decide (b.1 < a.1))
+
+def showVocab (v : List String) : String := if v.isEmpty then "-" else showList showWord v
+
+structure Req where
+  nmin : Nat
+  nmax : Nat
+  fitted : Fitted String
+
+/-- settings + training corpus → fitted vectoriser, or the error kind -/
+def doFit (toks : List String) : Option (Except String Req) := do
+  let nmin ← argNat toks "nmin"; let nmax ← argNat toks "nmax"
+  let lo ← argF32 toks "lo"; let hi ← argF32 toks "hi"
+  let stop ← argStop toks; let cap ← argCap toks
+  let docs ← argDocs toks "fit"
+  match checkParams nmin nmax lo hi with
+  | some e => some (.error e)
+  | none =>
+    let grams := docs.map (docGrams strJoiner nmin nmax)
+    let (a, b) := absBounds lo hi docs.length
+    some (.ok ⟨nmin, nmax, fit byWord grams a b stop cap⟩)
+
+def doFixed (toks : List String) : Option (Except String Req) := do
+  let nmin ← argNat toks "nmin"; let nmax ← argNat toks "nmax"
+  let lo ← argF32 toks "lo"; let hi ← argF32 toks "hi"
+  let words ← argWords toks "vocab"
+  match checkParams nmin nmax lo hi with
+  | some e => some (.error e)
+  | none => some (.ok ⟨nmin, nmax, fitVocabulary byWord words⟩)
+
+def respCount (toks : List String) (r : Except String Req) : Option String := do
+  let tr ← argDocs toks "tr"
+  match r with
+  | .error e => some ("err " ++ e)
+  | .ok q =>
+    let m := transform q.fitted (tr.map (docGrams strJoiner q.nmin q.nmax))
+    some s!"ok n={q.fitted.vocabulary.length} vocab={showVocab q.fitted.vec} counts={showList2 toString m}"
+
+def respTfIdf (toks : List String) (r : Except String Req) : Option String := do
+  let tr ← argDocs toks "tr"
+  let meth ← argMethod toks
+  match r with
+  | .error e => some ("err " ++ e)
+  | .ok q =>
+    let m : List (List Float) := transformTfIdf meth q.fitted (tr.map (docGrams strJoiner q.nmin q.nmax))
+    some s!"ok n={q.fitted.vocabulary.length} vocab={showVocab q.fitted.vec} tfidf={showList2 (fun x => "~" ++ showF64c x) m}"
+
+def handleNgrams (toks : List String) : Option String := do
+  let nmin ← argNat toks "nmin"; let nmax ← argNat toks "nmax"
+  let ws ← argWords toks "words"
+  some ("ok " ++ showList2 showWord (ngramList strJoiner ws nmin nmax))
+
+def handle (toks : List String) : String :=
+  let r := match toks with
+    | "count" :: rest => (doFit rest).bind (respCount rest)
+    | "tfidf" :: rest => (doFit rest).bind (respTfIdf rest)
+    | "fixed" :: rest => (doFixed rest).bind (respCount rest)
+    | "fixed_tfidf" :: rest => (doFixed rest).bind (respTfIdf rest)
+    | "ngrams" :: rest => handleNgrams rest
+    | _ => none
+  r.getD "bad-op"
 
 end LinfaSpec.Drv.C17
